@@ -613,3 +613,49 @@ func twoBaseDirs(res *Result, proj, sig string) {
 		}
 	}
 }
+
+// c14Repeated: the four entry points agree on every one of several executions in a row of one
+// compiled template - also for templates of length zero, templates that print nothing, templates
+// whose output is much longer or much shorter than their source, and pages including such partials
+func c14Repeated(res *Result) {
+	files := map[string]string{"/empty.tpl": "", "/blank.tpl": "{# nothing #}", "/big.tpl": "{% for i in many %}{{ long }}{% endfor %}", "/page.tpl": `<{% include "/empty.tpl" %}|{% include "/blank.tpl" %}|{% include "/big.tpl" %}>`,
+		"/child.tpl": `{% extends "/base.tpl" %}`, "/base.tpl": ""}
+	ctxs := []pongo2.Context{{"many": make([]int, 50), "long": strings.Repeat("x", 100)}, {"many": []int{}, "long": ""}, {"many": make([]int, 3), "long": "y"}, nil}
+	srcs := []string{"", "{# c #}", "{% if 0 %}never{% endif %}", "{{ nothing }}", `{% include "/empty.tpl" %}`, `{% include "/page.tpl" %}`, `{% for i in many %}{{ long }}{% endfor %}`, strings.Repeat("{# padding padding padding #}", 40) + "x"}
+	for _, name := range []string{"/empty.tpl", "/blank.tpl", "/big.tpl", "/page.tpl", "/child.tpl"} {
+		srcs = append(srcs, "file:"+name)
+	}
+	for _, src := range srcs {
+		set := pongo2.NewSet("c14-repeated", &memLoader{files: files})
+		var tpl *pongo2.Template
+		var err error
+		if strings.HasPrefix(src, "file:") {
+			tpl, err = set.FromFile(strings.TrimPrefix(src, "file:"))
+		} else {
+			tpl, err = set.FromString(src)
+		}
+		if err != nil {
+			oracleFail(res, "variants", "c14-repeated-executions", src, "err "+err.Error(), "compiles")
+			continue
+		}
+		for round := 0; round < 6; round++ {
+			res.Cases++
+			ctx := ctxs[round%len(ctxs)]
+			got := execFour(tpl, ctx)
+			fresh := pongo2.NewSet("c14-repeated-fresh", &memLoader{files: files})
+			var ft *pongo2.Template
+			if strings.HasPrefix(src, "file:") {
+				ft, _ = fresh.FromFile(strings.TrimPrefix(src, "file:"))
+			} else {
+				ft, _ = fresh.FromString(src)
+			}
+			want := "ok " + hx(execOnce(ft, ctx).out)
+			for i, g := range got {
+				if g != want {
+					oracleFail(res, "variants", "c14-repeated-executions", fmt.Sprintf("%q, execution round %d of one compiled template (contexts of very different output sizes in turn), through %s", src, round+1, fourNames[i]), g, want+" (a fresh compile, Execute)")
+					break
+				}
+			}
+		}
+	}
+}
